@@ -77,6 +77,7 @@ def process_top(job):
         custom = getattr(top, 'extra', {}).get('custom')
         if custom is not None:
             return custom(top, out, tier, seed)
+        timeout_ms = max(timeout_ms, int(getattr(top, 'extra', {}).get('timeout_ms') or 0))  # contract kwarg timeout_ms=: a larger budget for an entry with a known slow obligation
         inner_procs = getattr(top, 'extra', {}).get('procs') or inner_procs  # families of tiny lemmas: procs=1 (no fork per lemma)
         res = _big_frame(vcgen.verify, C.REG, top, tier)
         out['gen_s'] = time.time() - t0
@@ -278,7 +279,7 @@ def main():
     if not tops:
         print(f'CHECKER-ERROR property={prop} no contracts registered')
         sys.exit(3)
-    timeout_ms = int(os.environ.get('PYVC_TIMEOUT_MS') or 0) or (20000 if a.tier == "quick" else 90000)
+    timeout_ms = int(os.environ.get('PYVC_TIMEOUT_MS') or 0) or (40000 if a.tier == "quick" else 120000)
     ncpu = int(os.environ.get('PYVC_PROCS') or 0) or os.cpu_count() or 4
     outer = max(1, min(len(tops), 8, max(1, ncpu // 2)))
     inner = max(2, (ncpu - 1) // outer)
